@@ -1,5 +1,6 @@
 import Driver.Stream
 import Obao.Model.PKIRevoke
+import Obao.Model.PKIRevokeConc
 /-! Stateful stream `pkirevoke` (C16).  Ops (tab-separated fields):
 `addissuer` · `delissuer i` · `issue i L|S|M` · `craft i X|V` · `importissuer k` (k = 0: fresh serial, else the serial of certificate #k) · `revoke k serial|cert` · `rotate` · `tidy cs rc assoc`
 · `config a d x` (each 0, 1 or `-`) · `restart` · `tick d` · `obs`.
@@ -190,8 +191,98 @@ def cuttable : Op → Bool
   | .revoke .. | .rotate => true
   | _ => false
 
+/-! ### concurrent cases: the observed schedule is replayed on the micro-step model (trace validation) -/
+
+/-- events of a concurrent case: the effective writes in global order, tagged with the thread, plus `L` = the
+    thread's listing of `revoked/` inside a CRL build, `n<i>`/`x<i>` = issuer entry created / deleted -/
+def ctoken : Step → Option String
+  | .addIssuer i => some s!"n{i}"
+  | .delIssuer i => some s!"x{i}"
+  | st => token st
+
+def actEvent (c : CSt) : Act → Option String
+  | .w st => ctoken st
+  | .bw st => ctoken st
+  | .snap .. => if c.s.cfg.disable then none else some "L"
+  | _ => none
+
+/-- a thread gives up its locks as soon as it has nothing left to do under them: run its pending release steps -/
+def releaseTail (c : CSt) (a : Bool) : Nat → CSt
+  | 0 => c
+  | fuel + 1 =>
+    match (c.get a).acts with
+    | .built :: _ | .unlockB :: _ | .unlockR :: _ =>
+      match cstep false c a with
+      | some c' => releaseTail c' a fuel
+      | none => c
+    | _ => c
+
+/-- advance thread `a` through its silent micro-steps until it performs the event `tok` -/
+def advance (c : CSt) (a : Bool) (tok : String) : Nat → Except String CSt
+  | 0 => .error "fuel"
+  | fuel + 1 =>
+    match (c.get a).acts with
+    | [] => .error s!"thread-finished-before:{tok}"
+    | act :: _ =>
+      match cstep false c a with
+      | none => .error s!"blocked-before:{tok}"
+      | some c' =>
+        match actEvent c act with
+        | some v => if v == tok then .ok (releaseTail c' a 8) else .error s!"expected:{v}:got:{tok}"
+        | none => advance c' a tok fuel
+
+/-- after the last observed event only silent micro-steps may remain -/
+def drain (c : CSt) : Nat → Except String CSt
+  | 0 => .error "fuel"
+  | fuel + 1 =>
+    if c.finished then .ok c else
+    let try1 (a : Bool) : Option (Except String CSt) :=
+      match (c.get a).acts with
+      | [] => none
+      | act :: _ =>
+        match actEvent c act with
+        | some v => some (.error s!"unobserved-write:{v}")
+        | none => (cstep false c a).map .ok
+    match try1 false with
+    | some (.ok c') => drain c' fuel
+    | some (.error e) => .error e
+    | none =>
+      match try1 true with
+      | some (.ok c') => drain c' fuel
+      | some (.error e) => .error e
+      | none => .error "deadlock"
+
+def splitBar (fs : List String) : List (List String) :=
+  fs.foldr (fun f acc => if f == "|" then [] :: acc else match acc with | h :: t => (f :: h) :: t | [] => [[f]]) [[]]
+
+def parseEvent (e : String) : Option (Bool × String) :=
+  if e.startsWith "1:" then some (false, (e.drop 2).toString)
+  else if e.startsWith "2:" then some (true, (e.drop 2).toString) else none
+
+def showResO : Option Res → String
+  | some r => showRes r
+  | none => "none"
+
+def stepConc (s : St) (fs : List String) : St × String :=
+  match splitBar fs with
+  | [f1, f2, [sched]] =>
+    match parseOp? f1, parseOp? f2, (parseObs sched).mapM parseEvent with
+    | some (op1, []), some (.revoke k byCert, []), some evs =>
+      let toks (a : Bool) := (evs.filter (·.1 == a)).map (·.2)
+      let live := sortNat (List.range (s.nIssuers + 2))
+      let c0 := cinit s op1 (orderFrom 'C' (toks false) live) (orderFrom 'D' (toks false) live) k byCert
+        (orderFrom 'C' (toks true) live) (orderFrom 'D' (toks true) live)
+      if c0.t1.res == some .badOp then (s, "bad-op") else
+      let r := evs.foldl (fun (acc : Except String CSt) ev => acc.bind fun c => advance c ev.1 ev.2 10000) (.ok c0)
+      match r.bind (drain · 10000) with
+      | .ok c => (c.s, s!"r1={showResO c.t1.res} r2={showResO c.t2.res}")
+      | .error e => (s, "illegal-schedule:" ++ e)
+    | _, _, _ => (s, "bad-op")
+  | _ => (s, "bad-op")
+
 def step (s : St) (fs : List String) : St × String :=
   if fs == ["obs"] then (s, observe s) else
+  if fs.head? == some "conc" then stepConc s (fs.drop 1) else
   match parseOp? fs with
   | none => (s, "bad-op")
   | some (op, rest) =>
